@@ -22,6 +22,9 @@ pub fn cfg() -> Cfg {
         Resp::ReturnsDefault,
         Resp::Returns,
         Resp::Answers,
+        // pass-through responses: which pattern answers must not depend on the KIND of its response
+        Resp::Unmocked,
+        Resp::DefaultImpl,
     ];
     cfg.matchers = vec![
         MatcherKind::FuncDebug,
@@ -246,12 +249,137 @@ pub fn check_zero(c: &ZeroCase) -> Result<CaseInfo, String> {
         .class_if(first.is_none(), "every-pattern-rejects"))
 }
 
+// ------------------------------------------------------------------ two-argument patterns written with matching!
+
+#[unimock::unimock(api=P2Mock)]
+pub trait P2 {
+    fn p(&self, a: u8, b: u8) -> u32;
+}
+
+pub const P2_KINDS: usize = 10;
+
+/// The reference predicate of two-argument pattern `k` (what the equivalent Rust `match` accepts).
+pub fn p2_accepts(k: u8, a: u8, b: u8) -> bool {
+    match k {
+        0 => a == 1 && b == 2,
+        1 => a == 2 && b != 2,
+        2 => (a == 0 && b == 3) || (a == 3 && b == 0),
+        3 => a != 1 && b != 0,
+        4 => b == 1 || a == 2,
+        5 => (1..=2).contains(&a) && b == 3,
+        6 => a > b,
+        7 => (b == 2 && a != 0) || (a == 0 && b == 0),
+        8 => a == 3 && b == 3,
+        _ => true,
+    }
+}
+
+/// One unordered clause per pattern kind, answering `100 + position`; a call is answered by the first
+/// declared pattern whose Rust-match equivalent accepts (a, b).
+#[derive(Clone, Debug, PartialEq, Eq, Hash, serde::Serialize, serde::Deserialize)]
+pub struct TwoArgCase {
+    pub kinds: Vec<u8>,
+    pub a: u8,
+    pub b: u8,
+    pub one_stub: bool,
+}
+
+pub fn check_two_arg(c: &TwoArgCase) -> Result<CaseInfo, String> {
+    use unimock::{matching, MockFn, Unimock};
+    use vcore::panics::catch;
+    let mut dc = unimock::verif::DynClause::new();
+    macro_rules! pats {
+        ($each:ident, $k:expr, $v:expr) => {
+            match $k {
+                0 => { $each!(matching!(eq!(&1), eq!(&2)), $v) }
+                1 => { $each!(matching!(eq!(&2), ne!(&2)), $v) }
+                2 => { $each!(matching!((eq!(&0), eq!(&3)) | (eq!(&3), eq!(&0))), $v) }
+                3 => { $each!(matching!(ne!(&1), ne!(&0)), $v) }
+                4 => { $each!(matching!((_, eq!(&1)) | (eq!(&2), _)), $v) }
+                5 => { $each!(matching!(1..=2, eq!(&3)), $v) }
+                6 => { $each!(matching!((a, b) if a > b), $v) }
+                7 => { $each!(matching!((ne!(&0), eq!(&2)) | (eq!(&0), eq!(&0))), $v) }
+                8 => { $each!(matching!(eq!(&3), eq!(&3)), $v) }
+                _ => { $each!(matching!(_, _), $v) }
+            }
+        };
+    }
+    if c.one_stub {
+        let kinds = c.kinds.clone();
+        dc.push(P2Mock::p.stub(move |each| {
+            for (i, k) in kinds.iter().enumerate() {
+                let v = 100 + i as u32;
+                macro_rules! in_stub {
+                    ($m:expr, $v:expr) => {{
+                        each.call($m).returns($v);
+                    }};
+                }
+                pats!(in_stub, *k, v);
+            }
+        }));
+    } else {
+        for (i, k) in c.kinds.iter().enumerate() {
+            let v = 100 + i as u32;
+            macro_rules! as_clause {
+                ($m:expr, $v:expr) => {{
+                    dc.push(P2Mock::p.each_call($m).returns($v));
+                }};
+            }
+            pats!(as_clause, *k, v);
+        }
+    }
+    let u = catch(move || Unimock::new(dc).no_verify_in_drop()).map_err(|e| format!("HARNESS: construct {e}"))?;
+    let first = c.kinds.iter().position(|k| p2_accepts(*k, c.a, c.b));
+    let r = catch(|| u.p(c.a, c.b));
+    let _ = catch(move || drop(u));
+    let describe = || format!("patterns {:?} (see c01::check_two_arg for their text), call p({}, {})", c.kinds, c.a, c.b);
+    match (&r, first) {
+        (Ok(v), Some(i)) if *v == 100 + i as u32 => {}
+        (Err(m), None) if m.contains("P2::p") => {}
+        (Ok(v), Some(i)) => return Err(format!("{}: answered by pattern #{}, the first pattern whose Rust-match equivalent accepts is #{i}", describe(), v.wrapping_sub(100))),
+        (Ok(v), None) => return Err(format!("{}: answered by pattern #{}, but no pattern's Rust-match equivalent accepts", describe(), v.wrapping_sub(100))),
+        (Err(m), Some(i)) => return Err(format!("{}: panicked ({m}), pattern #{i} accepts", describe())),
+        (Err(m), None) => return Err(format!("{}: the panic does not name the method: {m}", describe())),
+    }
+    let accepting = c.kinds.iter().filter(|k| p2_accepts(**k, c.a, c.b)).count();
+    Ok(CaseInfo::new(c.kinds.len() >= 2)
+        .class_if(accepting >= 2, "call-with-overlapping-patterns")
+        .class_if(first.map(|i| i > 0).unwrap_or(false), "a-rejecting-pattern-precedes-the-accepting-one")
+        .class_if(first.is_none(), "every-pattern-rejects")
+        .class_if(c.one_stub, "one-stub")
+        .class_if(c.kinds.iter().any(|k| matches!(k, 0 | 1 | 2 | 3 | 7 | 8)), "two-compare-macros-in-one-alternative"))
+}
+
+/// every single kind and every ordered pair of kinds x every (a, b) in 0..4 x 0..4 x {clauses, one stub}
+pub fn two_arg_grid() -> Vec<TwoArgCase> {
+    let mut out = vec![];
+    let n = P2_KINDS as u8;
+    let mut lists: Vec<Vec<u8>> = (0..n).map(|k| vec![k]).collect();
+    for i in 0..n {
+        for j in 0..n {
+            if i != j {
+                lists.push(vec![i, j]);
+            }
+        }
+    }
+    for kinds in lists {
+        for a in 0..4 {
+            for b in 0..4 {
+                for one_stub in [false, true] {
+                    out.push(TwoArgCase { kinds: kinds.clone(), a, b, one_stub });
+                }
+            }
+        }
+    }
+    out
+}
+
 fn zero_strategy() -> impl Strategy<Value = ZeroCase> {
     (any::<bool>(), any::<bool>(), proptest::collection::vec(proptest::bool::weighted(0.4), 1..=5), any::<bool>(), 0..=4u8)
         .prop_map(|(partial, unit_arg, accepts, one_stub, calls)| ZeroCase { partial, unit_arg, accepts, one_stub, calls })
 }
 
-pub const RULE: &str = "scenarios = generated unordered clause lists (1-6 patterns per method, arbitrary 8-bit accept masks over args 0..8, some_call/each_call/stub forms, patterns of one method split over several clauses) x histories of up to 24 calls routed through the original or clones, strict and partial; wide-clause-lists = the same with up to 16 separate clauses over 3 methods (every mock is built from a REAL tuple of the list's arity); zero-sized-inputs = 1-5 accepting / rejecting patterns on a method without arguments or with a unit-struct argument (one stub or separate clauses), 0-4 calls, strict and partial; non-trivial = some call is accepted by >= 2 patterns of its method and an earlier call to the same method already matched; distinct = distinct scenario (hash of the whole case)";
+pub const RULE: &str = "scenarios = generated unordered clause lists (1-6 patterns per method, arbitrary 8-bit accept masks over args 0..8, some_call/each_call/stub forms, patterns of one method split over several clauses) x histories of up to 24 calls routed through the original or clones, strict and partial; wide-clause-lists = the same with up to 16 separate clauses over 3 methods (every mock is built from a REAL tuple of the list's arity); zero-sized-inputs = 1-5 accepting / rejecting patterns on a method without arguments or with a unit-struct argument (one stub or separate clauses), 0-4 calls, strict and partial; two-argument-macro-patterns = ten patterns over (u8, u8) written with the real matching! macro (two eq!/ne! operands in one alternative, alternatives with operands at different positions, ranges, guards), every single pattern and every ordered pair x every (a, b) in 0..4 x 0..4 x {separate clauses, one stub}, enumerated: the call is answered by the first pattern whose Rust-match equivalent accepts; non-trivial = some call is accepted by >= 2 patterns of its method and an earlier call to the same method already matched; distinct = distinct scenario (hash of the whole case)";
 
 pub fn run(ctx: &Ctx) -> Verdict {
     let mut v = Verdict::new("exploration", RULE);
@@ -277,6 +405,7 @@ pub fn run(ctx: &Ctx) -> Verdict {
     }));
     #[cfg(feature = "std")]
     v.subs.push(vcore::run_proptest(ctx, "zero-sized-inputs", ctx.tier.pick(4_000, 100_000), zero_strategy(), check_zero));
+    v.subs.push(vcore::run_enumerated(ctx, "two-argument-macro-patterns", two_arg_grid(), check_two_arg));
     if ctx.tier == vcore::Tier::Thorough {
         v.subs.push(super::fuzz_campaign(ctx, 1_500_000));
     }
@@ -285,6 +414,10 @@ pub fn run(ctx: &Ctx) -> Verdict {
 }
 
 pub fn replay(_sub: &str, case: Value) -> Result<(), String> {
+    if _sub == "two-argument-macro-patterns" {
+        let c: TwoArgCase = serde_json::from_value(case).map_err(|e| format!("HARNESS: bad case: {e}"))?;
+        return check_two_arg(&c).map(|_| ());
+    }
     if _sub == "zero-sized-inputs" {
         let c: ZeroCase = serde_json::from_value(case).map_err(|e| format!("HARNESS: bad case: {e}"))?;
         return check_zero(&c).map(|_| ());
